@@ -450,13 +450,18 @@ func (c *PConn) pump() {
 		if track {
 			fr.feed(b, nil)
 		}
-		if _, err := c.server.Write(b); err != nil {
-			return false
-		}
+		// record first: the server may react to the bytes before this goroutine runs again
 		c.mu.Lock()
 		c.Rec = append(c.Rec, b...)
 		c.Chunks = append(c.Chunks, len(b))
 		c.mu.Unlock()
+		if _, err := c.server.Write(b); err != nil {
+			c.mu.Lock()
+			c.Rec = c.Rec[:len(c.Rec)-len(b)]
+			c.Chunks = c.Chunks[:len(c.Chunks)-1]
+			c.mu.Unlock()
+			return false
+		}
 		if c.Plan.Pace > 0 {
 			time.Sleep(c.Plan.Pace)
 		}
@@ -476,11 +481,23 @@ func (c *PConn) pump() {
 				pend = append(pend, b...)
 			}
 		}
-		// modes that wait for more data
+		// modes that wait for more data (only while what they want is not there yet)
 		if !eof && (c.Plan.Mode == ModeCoalesce || c.Plan.Mode == Mode64K || c.Plan.Mode == ModeStraddle) {
 			for {
 				if c.Plan.Mode == Mode64K && len(pend) >= 65536 {
 					break
+				}
+				if c.Plan.Mode == ModeStraddle {
+					have := false
+					for _, s := range starts {
+						if s > pos && s+2 <= pos+int64(len(pend)) {
+							have = true
+							break
+						}
+					}
+					if have {
+						break
+					}
 				}
 				t := time.NewTimer(idle)
 				select {
